@@ -15,6 +15,7 @@ import (
 	"io"
 	"net"
 	"sync"
+	"sync/atomic"
 	"time"
 
 	"github.com/golang/protobuf/proto"
@@ -34,6 +35,7 @@ import (
 	"github.com/uber/kraken/lib/torrent/storage/piecereader"
 	"github.com/uber/kraken/tracker/announceclient"
 	"github.com/uber/kraken/tracker/metainfoclient"
+	"github.com/uber/kraken/utils/bandwidth"
 	"github.com/uber/kraken/utils/log"
 	"github.com/uber/kraken/utils/verifh"
 	"github.com/willf/bitset"
@@ -120,6 +122,10 @@ func (t *vTorrent) setFailClose(b bool) {
 	t.failClose = b
 }
 
+// vFailClose makes the Close of every piece reader fail (whatever torrent object it came from);
+// vCloses counts the Close calls of piece readers.
+var vFailClose, vCloses, vUnclosed int32
+
 type vReader struct {
 	storage.PieceReader
 	t *vTorrent
@@ -127,12 +133,47 @@ type vReader struct {
 
 func (r *vReader) Close() error {
 	err := r.PieceReader.Close()
+	defer atomic.AddInt32(&vCloses, 1)
 	r.t.mu.Lock()
 	defer r.t.mu.Unlock()
-	if r.t.failClose {
+	if r.t.failClose || atomic.LoadInt32(&vFailClose) != 0 {
 		return errors.New("verif: injected close failure")
 	}
 	return err
+}
+
+// vGate, when installed, parks every WritePiece call (the dispatcher's goroutine) just before the real
+// write until it is released; done receives the write's result.
+type vGate struct {
+	entered chan struct{}
+	release chan struct{}
+	done    chan error
+}
+
+var vGateP atomic.Value // *vGate
+
+func vSetGate(g *vGate) { vGateP.Store(g) }
+
+func (t *vTorrent) WritePiece(src storage.PieceReader, piece int) error {
+	if g, _ := vGateP.Load().(*vGate); g != nil {
+		g.entered <- struct{}{}
+		<-g.release
+		err := t.Torrent.WritePiece(src, piece)
+		g.done <- err
+		return err
+	}
+	return t.Torrent.WritePiece(src, piece)
+}
+
+// vProducer is a networkevent.Producer that shows every event to a hook first.
+type vProducer struct {
+	networkevent.Producer
+	hook func(*networkevent.Event)
+}
+
+func (p vProducer) Produce(e *networkevent.Event) {
+	p.hook(e)
+	p.Producer.Produce(e)
 }
 
 func (t *vTorrent) GetPieceReader(piece int) (storage.PieceReader, error) {
@@ -141,6 +182,27 @@ func (t *vTorrent) GetPieceReader(piece int) (storage.PieceReader, error) {
 		return nil, err
 	}
 	return &vReader{pr, t}, nil
+}
+
+// vArchive is the scheduler's torrent archive: the real one, with every torrent it hands out wrapped so that
+// piece readers are observable (torrents opened by the scheduler itself — Download's CreateTorrent,
+// addIncomingConn's GetTorrent — included).
+type vArchive struct{ storage.TorrentArchive }
+
+func (a vArchive) CreateTorrent(ns string, d core.Digest) (storage.Torrent, error) {
+	t, err := a.TorrentArchive.CreateTorrent(ns, d)
+	if err != nil {
+		return nil, err
+	}
+	return &vTorrent{Torrent: t}, nil
+}
+
+func (a vArchive) GetTorrent(ns string, d core.Digest) (storage.Torrent, error) {
+	t, err := a.TorrentArchive.GetTorrent(ns, d)
+	if err != nil {
+		return nil, err
+	}
+	return &vTorrent{Torrent: t}, nil
 }
 
 // ---------------------------------------------------------------- fake remote peer
@@ -154,6 +216,13 @@ type vPeer struct {
 	recvOnce sync.Once
 	mu       sync.Mutex
 	sent     []*conn.Message
+	fwd      func(*conn.Message) error // when set: piece payload messages are handed to it (a real conn's Send)
+}
+
+func (p *vPeer) setFwd(f func(*conn.Message) error) {
+	p.mu.Lock()
+	defer p.mu.Unlock()
+	p.fwd = f
 }
 
 func newVPeer(n int) *vPeer {
@@ -172,6 +241,11 @@ func (p *vPeer) Send(msg *conn.Message) error {
 	}
 	p.mu.Lock()
 	defer p.mu.Unlock()
+	if p.fwd != nil && msg.Message.Type == p2p.Message_PIECE_PAYLOAD {
+		if err := p.fwd(msg); err != nil {
+			return err
+		}
+	}
 	p.sent = append(p.sent, msg)
 	return nil
 }
@@ -353,7 +427,7 @@ func newVWorld(np, ntor int) *vWorld {
 		panic(err)
 	}
 	ac := &vAnnounceClient{}
-	s, err := newScheduler(config, ta, tally.NoopScope, pctx, ac,
+	s, err := newScheduler(config, vArchive{ta}, tally.NoopScope, pctx, ac,
 		networkevent.NewTestProducer(), withEventLoop(loop), withClock(clk))
 	if err != nil {
 		panic(err)
@@ -464,15 +538,40 @@ func (w *vWorld) peer(i int) *vPeer {
 	return p
 }
 
-// servePiece makes the fake peer request piece pi of torrent i and plays the conn write loop on the
-// answer: reads the payload (unless noread) and closes it. Returns "absent" (no control), "sent"
-// (a piece payload was handed to the connection), "rejected" (an error message came back).
-func (w *vWorld) servePiece(i, pi int, read bool) string {
+// servePiece makes the fake peer request piece pi of torrent i. The payload message the dispatcher answers
+// with is handed to a real conn.Conn (conn.PipeFixture): its write loop — conn.sendPiecePayload — is what
+// closes the piece reader in production, and closing the reader is what counts as "served".
+// mode: "ok"; "closefail" (the reader's Close returns an error); "egress" (the conn's egress limiter
+// refuses the piece: nothing is sent, the reader is closed all the same); "lost" (the conn's Send fails —
+// closed conn or full buffer: the reader is never closed).
+// Result: "absent" (no control), "closed" (the dispatcher dropped the peer), "rejected" (error message),
+// "nothing", "sent" (payload handed over and its reader closed), "sent-unclosed" (handed over, but the
+// reader was not closed within the deadline), "sent-garbled" (the remote end received other bytes).
+func (w *vWorld) servePiece(i, pi int, mode string) string {
 	p := w.peer(i)
 	if p == nil {
 		return "absent"
 	}
 	p.drainSent()
+	var cfg conn.Config
+	if mode == "egress" {
+		cfg.Bandwidth = bandwidth.Config{Enable: true, EgressBitsPerSec: 8, IngressBitsPerSec: 1 << 30, TokenSize: 1}
+	}
+	local, remote, cleanup := conn.PipeFixture(cfg, storage.NewTorrentInfo(w.blobs[i].mi, bitset.New(uint(w.np))))
+	defer cleanup()
+	atomic.StoreInt32(&vFailClose, 0)
+	if mode == "closefail" {
+		atomic.StoreInt32(&vFailClose, 1)
+	}
+	defer atomic.StoreInt32(&vFailClose, 0)
+	closes := atomic.LoadInt32(&vCloses)
+	p.setFwd(local.Send)
+	if mode == "lost" {
+		// (conn.Send on a closed conn picks between "conn closed" and its buffer at random; the failing
+		// outcome is the one meant here)
+		p.setFwd(func(*conn.Message) error { return errors.New("conn closed") })
+	}
+	defer p.setFwd(nil)
 	length := w.blobs[i].mi.GetPieceLength(pi)
 	msg := &conn.Message{Message: &p2p.Message{Type: p2p.Message_PIECE_REQUEST,
 		PieceRequest: &p2p.PieceRequestMessage{Index: int32(pi), Offset: 0, Length: int32(length)}}}
@@ -483,11 +582,45 @@ func (w *vWorld) servePiece(i, pi int, read bool) string {
 	for _, m := range p.drainSent() {
 		switch m.Message.Type {
 		case p2p.Message_PIECE_PAYLOAD:
-			if read {
-				io.Copy(io.Discard, m.Payload)
-			}
-			m.Payload.Close()
 			res = "sent"
+			// the conn's write loop closes the reader when it is done with the payload (sent or not)
+			wait := 2 * time.Second
+			if atomic.LoadInt32(&vUnclosed) >= 3 {
+				wait = 30 * time.Millisecond // it has been reported; do not spend 2 s on every further serve
+			}
+			for dl := time.Now().Add(wait); atomic.LoadInt32(&vCloses) == closes; {
+				if time.Now().After(dl) {
+					res = "sent-unclosed"
+					atomic.AddInt32(&vUnclosed, 1)
+					break
+				}
+				time.Sleep(20 * time.Microsecond)
+			}
+			if mode == "ok" || mode == "closefail" {
+				// what the remote end received, unless the conn broke (evicted blob: the copy fails)
+				for dl := time.Now().Add(5 * time.Second); time.Now().Before(dl); time.Sleep(20 * time.Microsecond) {
+					var got *conn.Message
+					select {
+					case got = <-remote.Receiver():
+					default:
+					}
+					if got != nil {
+						if got.Message.Type != p2p.Message_PIECE_PAYLOAD {
+							res = "sent-garbled"
+							break
+						}
+						b, _ := io.ReadAll(got.Payload)
+						got.Payload.Close()
+						if !bytes.Equal(b, w.blobs[i].piece(pi)) {
+							res = "sent-garbled"
+						}
+						break
+					}
+					if local.IsClosed() || remote.IsClosed() {
+						break
+					}
+				}
+			}
 		case p2p.Message_ERROR:
 			res = "rejected"
 		}
